@@ -60,6 +60,52 @@ def _uniq(items):
     return out
 
 
+def _concrete(x):
+    try:
+        from crosshair.tracers import NoTracing, is_tracing
+        from crosshair.util import CrossHairValue
+    except Exception:
+        return True
+    if not is_tracing():
+        return True
+    with NoTracing():
+        if isinstance(x, tuple):
+            return not any(isinstance(y, CrossHairValue) for y in x)
+        return not isinstance(x, CrossHairValue)
+
+
+class INSet:
+    """members of a character class: a set. Two classes are structurally equal when their members agree up to order (the
+    order follows set iteration order, i.e. the hash seed, in pregex); members are compared with ==, which also works for
+    members holding symbolic code points"""
+
+    def __init__(self, items):
+        self.items = list(items)
+
+    def __eq__(self, other):
+        if not isinstance(other, INSet) or len(self.items) != len(other.items):
+            return False
+        rest = list(other.items)
+        for it in self.items:
+            found = -1
+            for k, jt in enumerate(rest):
+                if it == jt:
+                    found = k
+                    break
+            if found < 0:
+                return False
+            del rest[found]
+        return True
+
+    def __ne__(self, other):
+        return not self.__eq__(other)
+
+    __hash__ = None
+
+    def __repr__(self):
+        return "INSet(%r)" % (self.items,)
+
+
 def norm_seq(sub):
     out = []
     for op, av in sub:
@@ -78,7 +124,10 @@ def norm_seq(sub):
         elif op in (sp.ASSERT, sp.ASSERT_NOT):
             out.append((str(op), av[0], norm_seq(av[1])))
         elif op is sp.IN:
-            out.append(("IN", [(str(o), a) for o, a in av]))
+            items = [(str(o), a) for o, a in av]
+            # a class is a set: the order of its concrete members (which follows set iteration order, i.e. the hash seed, in
+            # pregex) is not part of the structure; members with symbolic content keep their relative order, in front
+            out.append(("IN", INSet(items)))
         elif op is sp.GROUPREF_EXISTS:
             g, yes, no = av
             out.append((str(op), g, norm_seq(yes), norm_seq(no) if no is not None else None))
@@ -118,8 +167,8 @@ def norm_branch(items):
         op = it[0][0]
         if op == "LITERAL":
             charset.append(("LITERAL", it[0][1]))
-        elif op == "IN" and it[0][1][0][0] != "NEGATE":
-            charset.extend(it[0][1])
+        elif op == "IN" and not any(x[0] == "NEGATE" for x in it[0][1].items):
+            charset.extend(it[0][1].items)
         else:
             allsingle = False
             break
@@ -127,7 +176,7 @@ def norm_branch(items):
         cs = _uniq(charset)
         if len(cs) == 1 and cs[0][0] == "LITERAL":
             return prefix + [("LITERAL", cs[0][1])]
-        return prefix + [("IN", cs)]
+        return prefix + [("IN", INSet(cs))]
     return prefix + [("BRANCH", items)]
 
 
